@@ -118,6 +118,12 @@ MUTATORS = {
         ("wrong kernel", r"quimb/operator/configcore\.py$", r"^(\s+)return rank_to_flatconfig_u1_pascal\(r, n, k, pt\)\s*$", r"\1return rank_to_flatconfig_z2(r, n, k)"),
         ("sector order", r"quimb/operator/configcore\.py$", r"^(\s+)matvec_u1\(x, out, n, k, coupling_map, world_size, world_rank\)\s*$", r"\1matvec_u1(x, out, k, n, coupling_map, world_size, world_rank)"),
         ("drop code", r"quimb/operator/configcore\.py$", r"^(\s+)elif symmetry == 3:\s*$", r"\1elif symmetry == 4:"),
+        ("scalar inverted", r"quimb/operator/builder\.py$", r"^(\s+)coeff \*= combo_coeff / ref_coeff\s*$", r"\1coeff *= ref_coeff / combo_coeff"),
+        ("scalar dropped", r"quimb/operator/builder\.py$", r"^(\s+)coeff \*= combo_coeff / ref_coeff\s*$", r"\1coeff *= combo_coeff"),
+        ("jw string from partner", r"quimb/operator/builder\.py$", r"^(\s+)for r in range\(reg\):\s*$", r"\1for r in range(1, reg):"),
+        ("write without reset", r"quimb/operator/builder\.py$", r"^(\s+)self\._reset_caches\(\)\s*$", None, r"^(jordan_wigner_transform|pauli_decompose|add_term)$"),
+        ("reset only when set", r"quimb/operator/builder\.py$", r"^(\s+)self\._terms_raw\[ops\] = coeff\s*$", r"\1self._terms_raw[ops] = coeff\n\1if len(self._terms_raw) == 1:\n\1    return"),
+        ("sector from dict order", r"quimb/operator/hilbertspace\.py$", r"^(\s+)\(len\(species_regs\[label\]\), sector\[label\]\) for label in species_regs\s*$", r"\1(len(species_regs[label]), sector[label]) for label in sector"),
     ],
 }
 
